@@ -338,7 +338,7 @@ pub fn stream_families(tier: &str, fams: &[&str], rng: &mut Rng, f: &mut dyn FnM
                         let body = seq_by_index(&bytes, len, idx);
                         let mut t = vec![Tok::Start];
                         t.extend(body.iter().map(|b| Tok::B(*b)));
-                        for pad in 0..=3u8 {
+                        for pad in 0..=4u8 {
                             for mode in [0u8, 3] {
                                 t.push(Tok::End(pad, mode));
                                 let ops = expand(&t);
@@ -351,6 +351,24 @@ pub fn stream_families(tier: &str, fams: &[&str], rng: &mut Rng, f: &mut dyn FnM
                                 }
                                 t.pop();
                             }
+                        }
+                    }
+                }
+            }
+            "padx" => {
+                // end sequences declaring extreme pad counts (the byte comes straight from the wire)
+                let bodies: Vec<Vec<u8>> = vec![vec![], vec![0x55], vec![0, 0, 0, 0], vec![0x55, 0, 0, 0], vec![0x1b, 0x1b, 0x1b], vec![0; 8]];
+                for body in &bodies {
+                    for pad in [4u8, 5, 15, 16, 127, 128, 238, 239, 240, 241, 254, 255] {
+                        for mode in [0u8, 3] {
+                            let mut t = vec![Tok::Start];
+                            t.extend(body.iter().map(|b| Tok::B(*b)));
+                            t.push(Tok::End(pad, mode));
+                            let ops = expand(&t);
+                            f(&ops, 0);
+                            let mut t2 = t.clone();
+                            t2.push(Tok::Frame(vec![0x42]));
+                            f(&expand(&t2), ops.len());
                         }
                     }
                 }
@@ -457,7 +475,23 @@ pub fn idle_histories() -> Vec<(&'static str, Vec<Tok>)> {
         c.into_iter().map(Tok::B).collect()
     };
     let badesc: Vec<Tok> = START.iter().cloned().chain([0x1b, 0x1b, 0x1b, 0x1b, 0x1c, 0, 0, 0]).map(Tok::B).collect();
+    // an invalid-message error whose last checksum byte is 0x1b, and invalid escapes whose payload ends in 0x1b
+    let badframe1b: Vec<Tok> = {
+        let mut c = frame(&[0x33]);
+        let l = c.len();
+        if c[l - 1] == 0x1b {
+            c[l - 2] ^= 1;
+        } else {
+            c[l - 1] = 0x1b;
+        }
+        c.into_iter().map(Tok::B).collect()
+    };
+    let badesc1b: Vec<Tok> = START.iter().cloned().chain([0x1b, 0x1b, 0x1b, 0x1b, 0x02, 0x03, 0x04, 0x1b]).map(Tok::B).collect();
+    let badesc1b3: Vec<Tok> = START.iter().cloned().chain([0x1b, 0x1b, 0x1b, 0x1b, 0x02, 0x1b, 0x1b, 0x1b]).map(Tok::B).collect();
     vec![
+        ("afterinvmsg1b", badframe1b),
+        ("afterinvesc1b", badesc1b),
+        ("afterinvesc1b3", badesc1b3),
         ("new", vec![]),
         ("afterok", vec![Tok::Frame(vec![0x33])]),
         ("afterinvmsg", badframe),
